@@ -61,7 +61,7 @@ def BST(x, u, positive=False):
         result[positive_entries] = BST(x[positive_entries], u, positive=False)
         return result
     norm_x = norm(x)
-    if norm_x < u:
+    if norm_x <= u:  # also covers x == 0 with u == 0 (zero weight), avoiding 0 / 0
         return np.zeros_like(x)
     else:
         return (1 - u / norm_x) * x
